@@ -43,6 +43,8 @@ use crate::{
 mod path_state;
 mod path_watcher;
 mod remote_info;
+#[cfg(feature = "verif-hooks")]
+pub(crate) use self::path_state::verif as verif_path_state;
 
 /// How often to attempt holepunching.
 ///
@@ -243,6 +245,8 @@ impl RemoteStateActor {
         shutdown_token: CancellationToken,
     ) -> (EndpointId, Vec<RemoteStateMessage>) {
         trace!("actor started");
+        #[cfg(feature = "verif-hooks")]
+        crate::verif_hooks::c21::on_actor_started(self.state.endpoint_id);
         for msg in initial_msgs {
             self.handle_message(msg).await;
         }
@@ -332,13 +336,19 @@ impl RemoteStateActor {
             }
         }
 
+        #[cfg(feature = "verif-hooks")]
+        crate::verif_hooks::c21::on_break(self.state.endpoint_id).await;
         inbox.close();
+        #[cfg(feature = "verif-hooks")]
+        crate::verif_hooks::c21::on_closed(self.state.endpoint_id).await;
         // There might be a race between checking `inbox.is_empty()` and `inbox.close()`,
         // so we pull out all messages that are left over.
         let mut leftover_msgs = Vec::with_capacity(inbox.len());
         inbox.recv_many(&mut leftover_msgs, inbox.len()).await;
 
         trace!("actor terminating");
+        #[cfg(feature = "verif-hooks")]
+        crate::verif_hooks::c21::on_return(self.state.endpoint_id, &leftover_msgs);
         (self.state.endpoint_id, leftover_msgs)
     }
 
@@ -355,6 +365,8 @@ impl RemoteStateActor {
     #[instrument(skip(self))]
     async fn handle_message(&mut self, msg: RemoteStateMessage) {
         // trace!("handling message");
+        #[cfg(feature = "verif-hooks")]
+        crate::verif_hooks::c21::on_handle(self.state.endpoint_id, &msg);
         match msg {
             RemoteStateMessage::SendDatagram(sender, transmit) => {
                 self.state.handle_msg_send_datagram(sender, transmit).await;
@@ -1291,6 +1303,8 @@ enum PathsSource<'a> {
     Live(&'a FxHashMap<ConnId, ConnectionState>),
     #[cfg(test)]
     Test(Vec<PathSelectionData<'a>>),
+    #[cfg(feature = "verif-hooks")]
+    Verif(Vec<PathSelectionData<'a>>),
 }
 
 #[cfg_attr(not(feature = "unstable-custom-transports"), allow(unreachable_pub))]
@@ -1317,6 +1331,18 @@ impl<'a> PathSelectionContext<'a> {
         }
     }
 
+    /// Verification hook (C24): same as `for_test`, available without `cfg(test)`.
+    #[cfg(feature = "verif-hooks")]
+    pub(crate) fn verif_new(
+        current: Option<&'a transports::FourTuple>,
+        paths: Vec<PathSelectionData<'a>>,
+    ) -> Self {
+        Self {
+            current,
+            source: PathsSource::Verif(paths),
+        }
+    }
+
     /// The path currently considered the preferred path to the remote endpoint, if any.
     pub fn current(&self) -> Option<&transports::FourTuple> {
         self.current
@@ -1340,6 +1366,8 @@ impl<'a> PathSelectionContext<'a> {
             ),
             #[cfg(test)]
             PathsSource::Test(paths) => Box::new(paths.iter().cloned()),
+            #[cfg(feature = "verif-hooks")]
+            PathsSource::Verif(paths) => Box::new(paths.iter().cloned()),
         }
     }
 }
@@ -1367,6 +1395,8 @@ enum StatsSource {
     /// size in production where only the `Live` variant is ever constructed.
     #[cfg(test)]
     Test(Option<Box<PathStats>>),
+    #[cfg(feature = "verif-hooks")]
+    Verif(Option<Box<PathStats>>),
 }
 
 #[cfg_attr(not(feature = "unstable-custom-transports"), allow(unreachable_pub))]
@@ -1397,6 +1427,18 @@ impl<'a> PathSelectionData<'a> {
         }
     }
 
+    /// Verification hook (C24): same as `for_test`, available without `cfg(test)`.
+    #[cfg(feature = "verif-hooks")]
+    pub(crate) fn verif_new(
+        network_path: &'a transports::FourTuple,
+        stats: Option<PathStats>,
+    ) -> Self {
+        Self {
+            network_path,
+            source: StatsSource::Verif(stats.map(Box::new)),
+        }
+    }
+
     /// The network path of the candidate path.
     pub fn network_path(&self) -> &transports::FourTuple {
         self.network_path
@@ -1408,6 +1450,8 @@ impl<'a> PathSelectionData<'a> {
             StatsSource::Live { path_id, conn } => conn.path_stats(*path_id),
             #[cfg(test)]
             StatsSource::Test(stats) => stats.as_deref().copied(),
+            #[cfg(feature = "verif-hooks")]
+            StatsSource::Verif(stats) => stats.as_deref().copied(),
         }
     }
 }
@@ -1526,5 +1570,98 @@ async fn maybe_next<S: Stream + Unpin>(maybe_stream: Option<&mut S>) -> Option<O
     match maybe_stream {
         None => None,
         Some(s) => Some(s.next().await),
+    }
+}
+
+/// Accessors for `crate::verif_hooks::c22` (verification hooks only): drives the real
+/// [`State`] of a [`RemoteStateActor`] that is constructed but never started.
+#[cfg(feature = "verif-hooks")]
+pub(crate) mod verif_c22 {
+    use super::*;
+
+    pub(crate) struct Harness {
+        actor: RemoteStateActor,
+        _local_addrs: n0_watcher::Watchable<BTreeSet<DirectAddr>>,
+    }
+
+    impl Harness {
+        /// Same construction as `RemoteMap::start_remote_state_actor`, with default collaborators.
+        pub(crate) fn new(endpoint_id: EndpointId) -> Self {
+            let watchable = n0_watcher::Watchable::new(BTreeSet::new());
+            let actor = RemoteStateActor::new(
+                endpoint_id,
+                watchable.watch(),
+                Default::default(),
+                Default::default(),
+                Default::default(),
+                crate::address_lookup::AddressLookupServices::default(),
+                Arc::new(crate::socket::biased_rtt_path_selector::BiasedRttPathSelector::default()),
+            );
+            Self {
+                actor,
+                _local_addrs: watchable,
+            }
+        }
+
+        /// `RemoteStateMessage::ResolveRemote` as dispatched by `handle_message`.
+        pub(crate) fn resolve(
+            &mut self,
+            addrs: BTreeSet<TransportAddr>,
+            tx: oneshot::Sender<Result<(), AddressLookupFailed>>,
+        ) {
+            self.actor.state.handle_msg_resolve_remote(addrs, tx);
+        }
+
+        pub(crate) fn lookup_running(&self) -> bool {
+            self.actor.state.address_lookup_stream.is_some()
+        }
+
+        /// The `address_lookup_stream` arm of the actor's `select!`: only enabled while a
+        /// lookup stream exists.  Returns whether the item was handled.
+        pub(crate) fn lookup_item(
+            &mut self,
+            item: Option<Result<AddressLookupItem, AddressLookupFailed>>,
+        ) -> bool {
+            if self.actor.state.address_lookup_stream.is_some() {
+                self.actor.state.handle_address_lookup_item(item);
+                true
+            } else {
+                false
+            }
+        }
+
+        /// What `register_and_configure_path` does to the path state; `select` stands for
+        /// `select_path` choosing this path.
+        pub(crate) fn open_path(&mut self, addr: transports::Addr, select: bool) {
+            self.actor
+                .state
+                .paths
+                .insert_open_path(addr.clone(), Source::Connection);
+            if select {
+                self.actor.state.selected_path = Some(transports::FourTuple::from_remote(addr));
+            }
+        }
+
+        /// What `handle_path_event(Abandoned)` does to the path state.
+        pub(crate) fn abandon_path(&mut self, addr: &transports::Addr) {
+            self.actor.state.paths.abandoned_path(addr);
+        }
+
+        /// What `handle_connection_close` does when the last connection goes away.
+        pub(crate) fn last_connection_closed(&mut self) {
+            self.actor.state.selected_path = None;
+        }
+
+        pub(crate) fn selected(&self) -> Option<transports::Addr> {
+            self.actor.state.selected_path.as_ref().map(|p| p.remote())
+        }
+
+        pub(crate) fn entries(&self) -> Vec<(transports::Addr, u8, Option<Instant>)> {
+            path_state::verif::entries_of(&self.actor.state.paths)
+        }
+
+        pub(crate) fn pending_len(&self) -> usize {
+            path_state::verif::pending_len_of(&self.actor.state.paths)
+        }
     }
 }
